@@ -330,7 +330,7 @@ def check_step(ck, rng, spec, cfg, case_key):
 def run(ck):
     rng = ck.rng("c07")
     thorough = ck.tier == "thorough"
-    n = 320 if thorough else 40
+    n = 1000 if thorough else 40
     templates = ["pose_log", "points", "alg_log", "mixed_so3_offset", "two_outputs", "three_params", "program", "frozen"]
     for i in range(n):
         which = templates[(i + ck.shard) % len(templates)]
